@@ -44,17 +44,6 @@ Proof.
     eapply se_lift, H.
 Qed.
 
-Lemma pass_start_facts s : wfb s = true -> ValInv s ->
-  let s1 := EngineLocal.passStart s in
-  Struct s1 /\ LInv (Heap.ids (heap s)) (EvPassStart :: log s) s1 None /\ AlwaysOK s1 [].
-Proof.
-  intros Hwf V s1. pose proof (wfb_Struct s Hwf (vi_bf _ V)) as HS.
-  split; [destruct HS; constructor; assumption|]. split; [exact (LInv_start s Hwf V)|].
-  split; [|intros x Hx; inv Hx]. intros x _ Hd. exfalso.
-  pose proof (stamps_node_true _ _ (vi_stamps _ V x)). unfold isDone in Hd. apply Z.eqb_eq in Hd.
-  change (recomputedAt (nd s x) = stabNum s) in Hd. lia.
-Qed.
-
 Lemma writes_no_error s p s' e :
   wfb s = true -> ValInv s -> writes_only p = true -> stabilize p false s = Ok (s', e) -> e = None.
 Proof.
@@ -79,6 +68,16 @@ Proof.
   unfold passResult in EL. cbv zeta in EL. simpl in EL.
   destruct (pass_start_facts s Hwf V) as (HS1 & L1 & HA1).
   destruct (loop_fail _ _ x _ _ [] sL e at_ always HS1 L1 HA1 EL) as (_ & _ & _ & _ & _ & [[-> _]|[-> _]]); auto.
+Qed.
+
+Lemma panicPlan_result s x s' e :
+  wfb s = true -> ValInv s -> stabilize (panicPlan x) false s = Ok (s', e) -> e = None \/ e = Some (EPanic x).
+Proof.
+  intros Hwf V H. destruct (wfb_transients _ Hwf) as (Hst & _).
+  destruct (stabilize_decompose _ _ _ _ _ Hst H) as (sL & at_ & always & _ & _ & EL & _).
+  unfold passResult in EL. cbv zeta in EL. simpl in EL.
+  destruct (pass_start_facts s Hwf V) as (HS1 & L1 & HA1).
+  destruct (loop_panic _ _ x _ _ [] sL e at_ always HS1 L1 HA1 EL) as [(-> & _)|(-> & _)]; auto.
 Qed.
 
 (** a cancelled pass only advances the pass counter *)
@@ -150,10 +149,13 @@ Proof.
       exact (step_ValInv s o s1 Hwf V Hso Hok H Hwf1).
   - destruct o; try discriminate Hso. cbn [step] in H. apply orb_true_iff in Hso as [Hw|Hf].
     + pose proof (writes_no_error s p s1 e Hwf V Hw H) as ->. exact (step_writes_ValInv s p s1 Hwf V Hw Hok H).
-    + destruct (isFailPlan_eq p Hf) as [x ->].
-      destruct (failPlan_result s x s1 e Hwf V H) as [-> | ->].
-      * apply (step2_ValInv s (Stabilize (failPlan x)) s1 None Hwf V); try assumption; reflexivity.
-      * apply (pass_fail_retry s x s1 _ Hwf V H).
+    + destruct (isFailPlan_eq p Hf) as [x [-> | ->]].
+      * destruct (failPlan_result s x s1 e Hwf V H) as [-> | ->].
+        -- exact (failPlan_none_ValInv s x s1 Hwf V H).
+        -- apply (pass_fail_retry s x s1 _ Hwf V H).
+      * destruct (panicPlan_result s x s1 e Hwf V H) as [-> | ->].
+        -- exact (panicPlan_none_ValInv s x s1 Hwf V H).
+        -- apply (pass_panic_retry s x s1 _ Hwf V H).
 Qed.
 
 Lemma frag_run_inv os : forall s0 s,
@@ -284,6 +286,15 @@ Proof.
   assert (H : match run_clean (init 64) ex_history2 with Some _ => true | None => false end = true)
     by (vm_compute; reflexivity).
   destruct (run_clean (init 64) ex_history2) as [s'|]; [eauto|discriminate H].
+Qed.
+
+Lemma ex_history3_clean :
+  forallb static_op2 ex_history3 = true /\ exists s', run_clean (init 64) ex_history3 = Some s'.
+Proof.
+  split; [vm_compute; reflexivity|].
+  assert (H : match run_clean (init 64) ex_history3 with Some _ => true | None => false end = true)
+    by (vm_compute; reflexivity).
+  destruct (run_clean (init 64) ex_history3) as [s'|]; [eauto|discriminate H].
 Qed.
 
 (** * 2. No deferred value survives a pass with writes *)
